@@ -31,7 +31,8 @@ type SchedCall struct {
 }
 
 // Sched implements scheduler.Service as an explicit reference of the scheduler
-// contract.  Nothing runs by itself: the harness fires jobs (Fire, FireDue).
+// contract, including: a job whose parent (scheduling) context has ended is
+// dropped without running (logged as "dropped-parent-context-done").  Nothing runs by itself: the harness fires jobs (Fire, FireDue).
 // RunJob / RunJobIfExists run the job synchronously on the caller's goroutine
 // unless Async is set (then in a new goroutine, as the real scheduler does).
 type Sched struct {
@@ -64,6 +65,7 @@ func (s *Sched) ScheduleJob(ctx context.Context, class string, name string, runt
 	case job == nil:
 		err = scheduler.ErrNoJobFunc
 	default:
+		s.reap()
 		if _, ok := s.jobs[name]; ok {
 			err = scheduler.ErrJobAlreadyExists
 		}
@@ -89,6 +91,7 @@ func (s *Sched) SchedulePeriodicJob(ctx context.Context, class string, name stri
 	case job == nil:
 		err = scheduler.ErrNoJobFunc
 	default:
+		s.reap()
 		if _, ok := s.jobs[name]; ok {
 			err = scheduler.ErrJobAlreadyExists
 		}
@@ -133,7 +136,23 @@ func (s *Sched) CancelJobs(_ context.Context, prefix string) {
 	s.logf("cancel-prefix", prefix, time.Time{}, nil)
 }
 
+// ctxDone reports whether the context the job was scheduled with has ended.  The scheduler contract
+// ("if the parent context is cancelled the job will not run") means such a job is gone: the real scheduler's job
+// goroutine removes it as soon as the context is done.
+func ctxDone(j *Job) bool { return j.Ctx != nil && j.Ctx.Err() != nil }
+
+// reap drops every job whose parent context has ended (caller holds the lock).
+func (s *Sched) reap() {
+	for name, j := range s.jobs {
+		if ctxDone(j) {
+			delete(s.jobs, name)
+			s.logf("dropped-parent-context-done", name, time.Time{}, nil)
+		}
+	}
+}
+
 func (s *Sched) take(name string) *Job {
+	s.reap()
 	j, ok := s.jobs[name]
 	if !ok {
 		return nil
@@ -175,6 +194,7 @@ func (s *Sched) RunJob(_ context.Context, name string) error {
 func (s *Sched) JobExists(_ context.Context, name string) bool {
 	s.mu.Lock()
 	defer s.mu.Unlock()
+	s.reap()
 	_, ok := s.jobs[name]
 	return ok
 }
@@ -192,6 +212,7 @@ func (s *Sched) RunJobIfExists(_ context.Context, name string) {
 func (s *Sched) ListJobs(_ context.Context) []string {
 	s.mu.Lock()
 	defer s.mu.Unlock()
+	s.reap()
 	names := make([]string, 0, len(s.jobs))
 	for n := range s.jobs {
 		names = append(names, n)
@@ -207,6 +228,7 @@ func (s *Sched) Wait() { s.wg.Wait() }
 func (s *Sched) Get(name string) *Job {
 	s.mu.Lock()
 	defer s.mu.Unlock()
+	s.reap()
 	if j, ok := s.jobs[name]; ok {
 		c := *j
 		return &c
@@ -218,6 +240,7 @@ func (s *Sched) Get(name string) *Job {
 func (s *Sched) Jobs() []Job {
 	s.mu.Lock()
 	defer s.mu.Unlock()
+	s.reap()
 	res := make([]Job, 0, len(s.jobs))
 	for _, j := range s.jobs {
 		res = append(res, *j)
